@@ -2,6 +2,7 @@ mod api;
 mod bencode;
 mod krpc;
 mod props;
+mod rawnet;
 mod rng;
 mod runner;
 mod sim;
